@@ -261,11 +261,11 @@ impl<T: ?Sized, R: RawRwLock> RwLock<T, R> {
 				|| self.raw_unlock_read(),
 			);
 
-			// ensures the key is held long enough
-			drop(key);
-
 			// safety: the mutex is still locked
 			self.raw_unlock_read();
+
+			// the key is only given back once nothing is held any more
+			drop(key);
 
 			r
 		}
@@ -288,11 +288,11 @@ impl<T: ?Sized, R: RawRwLock> RwLock<T, R> {
 				|| self.raw_unlock_read(),
 			);
 
-			// ensures the key is held long enough
-			drop(key);
-
 			// safety: the mutex is still locked
 			self.raw_unlock_read();
+
+			// the key is only given back once nothing is held any more
+			drop(key);
 
 			Ok(r)
 		}
@@ -309,11 +309,11 @@ impl<T: ?Sized, R: RawRwLock> RwLock<T, R> {
 				|| self.raw_unlock_write(),
 			);
 
-			// ensures the key is held long enough
-			drop(key);
-
 			// safety: the mutex is still locked
 			self.raw_unlock_write();
+
+			// the key is only given back once nothing is held any more
+			drop(key);
 
 			r
 		}
@@ -336,11 +336,11 @@ impl<T: ?Sized, R: RawRwLock> RwLock<T, R> {
 				|| self.raw_unlock_write(),
 			);
 
-			// ensures the key is held long enough
-			drop(key);
-
 			// safety: the mutex is still locked
 			self.raw_unlock_write();
+
+			// the key is only given back once nothing is held any more
+			drop(key);
 
 			Ok(r)
 		}
